@@ -273,7 +273,15 @@ def bounded_native(ck):
     rng = np.random.default_rng(ck.seed)
     tmp = tempfile.mkdtemp(prefix="c16_", dir=os.environ.get("XDG_RUNTIME_DIR") or None)
     try:
-        for name, cfg in variants():
+        vs = list(variants())
+        # the same variants once more with values that do not fit a short header card: long texts, full-precision numbers
+        for name, cfg in list(variants())[:2]:
+            cfg.title = "A deliberately long run title that does not fit into a single eighty-character FITS header card at all"
+            cfg.detector.name = "Balloon-borne Cherenkov telescope, flight configuration number seven (refurbished)"
+            cfg.detector.optical.telescope_effective_area = 2.123456789012345
+            cfg.detector.sun_moon.moon_min_phase_angle_cut = 2.6179938779914944
+            vs.append((name + ",long-values", cfg))
+        for name, cfg in vs:
             cfg.detector.initial_position.latitude, cfg.detector.initial_position.longitude = 0.3, 1.1
             cfg.detector.optical.enable = False
             cfg.detector.sun_moon.sun_moon_cuts = False
@@ -308,9 +316,12 @@ def bounded_native(ck):
                 pairs = [("latitude", r.detector.initial_position.latitude, 0.3), ("longitude", r.detector.initial_position.longitude, 1.1), ("altitude", r.detector.initial_position.altitude, 525.0),
                          ("snr_threshold", r.detector.radio.snr_threshold, 7.5), ("spectrum id", r.simulation.spectrum.id, cfg.simulation.spectrum.id), ("cloud id", r.simulation.cloud_model.id, cfg.simulation.cloud_model.id),
                          ("thrown_events", r.simulation.thrown_events, cfg.simulation.thrown_events), ("etau_frac", r.simulation.tau_shower.etau_frac, cfg.simulation.tau_shower.etau_frac)]
+                pairs += [("title", r.title, cfg.title), ("detector name", r.detector.name, cfg.detector.name), ("effective area", r.detector.optical.telescope_effective_area, cfg.detector.optical.telescope_effective_area),
+                          ("moon phase cut", r.detector.sun_moon.moon_min_phase_angle_cut, cfg.detector.sun_moon.moon_min_phase_angle_cut)]
                 if "power" in name:
                     pairs += [("index", r.simulation.spectrum.index, 2.2), ("lower_bound", r.simulation.spectrum.lower_bound, 7.0), ("upper_bound", r.simulation.spectrum.upper_bound, 11.0)]
-                badp = [(k, a, b) for k, a, b in pairs if not (a == b or (isinstance(b, float) and abs(a - b) <= 4e-16 * max(1.0, abs(b))))]
+                # an angle goes through text in degrees and back: a few ulp (8 allowed); everything else 1 ulp-scale as before
+                badp = [(k, a, b) for k, a, b in pairs if not (a == b or (isinstance(b, float) and abs(a - b) <= (2e-15 if k == "moon phase cut" else 4e-16) * max(1.0, abs(b))))]
                 if badp:
                     fails.append({"obligation": "bounded.reader", "clause": "the configuration reconstructed from a results file agrees with the original on every field it reconstructs", "input": {"variant": name},
                                   "observed": {"field": badp[0][0], "reconstructed": badp[0][1], "original": badp[0][2]}})
